@@ -11,7 +11,7 @@ CLAIM = {
          "computed by a reference registry: exactly once each, never before all named components are registered and immediately once they are, "
          "regardless of order, a failing callback not affecting the others; dependency-driven listener wiring exists exactly for the declared events; "
          "lifecycle events are GoingUp, Up (after the last deferral), GoingDown, Down, each once and in that order."
-         " Also: a falsy component, deferrals taken through GoingUpEvent.get_deferral(), waiters becoming ready inside another waiter's callback, and the caller changing its dependency list after declaring a waiter (O3_caller_list).",
+         " Also: a falsy component, deferrals taken through GoingUpEvent.get_deferral(), waiters becoming ready inside another waiter's callback, and the caller changing its dependency list after declaring a waiter (O3_caller_list). Late go-up deferrals (taken after the system is up) do not raise Up again.",
  'note': "Trusted: CPython, z3, symx proxies, the reference registry in props/C08.py. Selector-dominated: bounded exhaustive enumeration of histories "
          "driven by the solver. Threads, time.sleep and the scheduler's own shutdown are stubbed in _quit.",
 }
